@@ -36,6 +36,67 @@ def tb_files(fmt_exc: str) -> list[str]:
     return re.findall(r'File "([^"]+)", line \d+', part)
 
 
+# ---- correspondence of model K2 (traceback cleaning) with the real `_remove_frame` + `clean_exception` hook fan-out ----
+TAGS = 'rcuns'
+
+
+def _modnames() -> dict:
+    from nextline.spawned import runner
+    from nextline.spawned.plugin.plugins import _script, compose
+    from nextline.spawned.utils import WithContext
+    return {'r': runner.__name__, 'c': compose.__name__, 'u': WithContext.__module__, 'n': 'nextline.spawned.plugin.plugins.pdb_.custom',
+            's': _script.__name__}
+
+
+def real_clean(tags: str, kind: str, hook: Any, names: dict) -> str:
+    """Raise an exception of `kind` through real frames whose modules are `tags` (outermost first; the outermost frame catches it the
+    way `_compile_and_run` does), run the real clean-up on it, and read back the modules of the traceback that is left."""
+    import inspect
+    from nextline.spawned.runner import _remove_frame
+    E = {'syntax': SyntaxError('invalid syntax'), 'kbd': KeyboardInterrupt(), 'other': ValueError('x')}[kind]
+    nxt: Any = None
+    for t in reversed(tags[1:]):
+        g: dict = {'__name__': names[t], 'nxt': nxt, 'E': E}
+        exec('def f():\n    raise E\n' if nxt is None else 'def f():\n    return nxt()\n', g)
+        nxt = g['f']
+    g = {'__name__': names[tags[0]], 'nxt': nxt, 'E': E, 'rm': _remove_frame, 'clean': hook.hook.clean_exception, 'cur': inspect.currentframe,
+         'own': tags[0] == 'r'}
+    body = 'raise E' if nxt is None else 'return nxt()'
+    exec(f'def f():\n    try:\n        {body}\n    except BaseException as exc:\n        rm(exc=exc, frame=cur() if own else None)\n'
+         '        clean(exc=exc)\n        return exc\n', g)
+    exc = g['f']()
+    back = {v: k for k, v in names.items()}
+    out = []
+    tb = exc.__traceback__
+    while tb:
+        out.append(back.get(tb.tb_frame.f_globals.get('__name__'), '?'))
+        tb = tb.tb_next
+    return ' '.join(out) if out else '-'
+
+
+def k2_correspondence(chk: common.Check) -> list[str]:
+    import itertools
+    import queue
+    from nextline.spawned.plugin import Hook
+    from nextline.spawned.types import RunArg
+    names = _modnames()
+    hook = Hook(run_arg=RunArg(run_no=1, statement='pass', filename='<string>'), queue_in=queue.Queue(), queue_out=queue.Queue())
+    maxlen = 5 if chk.tier == 'quick' else 7
+    cases = [(''.join(t), k) for n in range(1, maxlen + 1) for t in itertools.product(TAGS, repeat=n) for k in ('syntax', 'kbd', 'other')]
+    lines = [f'clean {k} ' + ' '.join(t) for t, k in cases]
+    mo = common.model_batch('tb', lines)
+    bad = []
+    for (t, k), m in zip(cases, mo):
+        chk.cov.count('k2_kind', k)
+        r = real_clean(t, k, hook, names)
+        if r != m:
+            bad.append(f'traceback {" ".join(t)} of a {k} exception: the code leaves [{r}], the model [{m}]')
+    chk.cov.count('kinds', 'k2-exhaustive-tracebacks', len(cases))
+    chk.cov.extra['k2_scope'] = f'every traceback of ≤ {maxlen} frames over {{runner, compose, utils, other Nextline, user}} × {{SyntaxError, KeyboardInterrupt, other}}: {len(cases)} cases'
+    chk.cov.traces_validated = (chk.cov.traces_validated or 0) + len(cases)
+    return bad
+
+
 def compare(sp: dict, r: dict) -> list[str]:
     msgs = []
     ref, t = r['reference'], r['traced']
@@ -161,11 +222,14 @@ def run(chk: common.Check) -> None:
                'expect_out': 'start\n'})
     rs.append({'statement': "def main():\n    print('in callable')\n    return [1, 2]\n", 'statement_kind': 'callable',
                'policy': {'kind': 'all', 'command': 'next'}, 'timeout': 40, 'expect_ret': [1, 2], 'expect_out': 'in callable\n'})
+    # SIGINT while the main thread sits at a prompt (inside Nextline's trace function): the reported KeyboardInterrupt is cut back to user frames
+    rs.append({'statement': 'import time\nprint("start")\nx = 1\ny = 2\nz = 3\n', 'policy': {'kind': 'all', 'command': 'next'}, 'timeout': 40,
+               'signal': {'kind': 'interrupt', 'at_prompt': 3}, 'expect_exc': 'KeyboardInterrupt', 'expect_out': 'start\n'})
     rs.append({'statement': "print('code object')\n", 'statement_kind': 'code', 'policy': {'kind': 'all', 'command': 'next'}, 'timeout': 40,
                'expect_out': 'code object\n'})
-    for r in common.real_runs(rs, jobs=4, hard_timeout=90):
+    for r in common.real_runs(rs, jobs=5, hard_timeout=90):
         sp = r['spec']
-        chk.cov.case(('real', sp.get('statement_kind', 'str')))
+        chk.cov.case(('real', sp.get('statement_kind', 'str'), repr(sp.get('signal'))))
         chk.cov.count('form', 'real-' + sp.get('statement_kind', 'str'))
         rec = r['rec']
         m = []
@@ -178,8 +242,11 @@ def run(chk: common.Check) -> None:
                 exc = rec.get('exception') or ''
                 if sp['expect_exc'] not in exc:
                     m.append(f'expected uncaught {sp["expect_exc"]}, reported {exc[-150:]!r}')
-                if '/nextline/' in exc:
-                    m.append(f'the reported traceback contains Nextline frames: {exc[:300]!r}')
+                # the traceback of the reported exception itself (the last of the chain: a KeyboardInterrupt delivered inside the trace
+                # function carries that occurrence as its __context__, which has no untraced counterpart and is not what clean_exception is about)
+                files = tb_files(exc)
+                if not files or any('/nextline/' in f or '/pluggy/' in f or f.endswith(('/bdb.py', '/pdb.py', '/cmd.py')) for f in files):
+                    m.append(f'the traceback of the reported exception is empty or contains Nextline frames: {files}')
             if 'expect_ret' in sp and rec.get('result') != sp['expect_ret']:
                 m.append(f'result {rec.get("result")!r}, the callable returns {sp["expect_ret"]!r}')
         if m:
@@ -191,5 +258,12 @@ def run(chk: common.Check) -> None:
     for sp, msgs in oracle_fail[:5]:
         chk.violation(f'C04 oracle: {msgs[0]}', {'spec': sp, 'oracle_messages': msgs[:10]})
     broken = common.proof_broken(chk)
+    try:
+        k2 = k2_correspondence(chk)
+    except Exception as e:  # noqa
+        k2 = [f'K2 correspondence could not run: {type(e).__name__}: {e}']
+    if k2:
+        chk.cov.disagreements_checked = len(k2)
+        broken.append(f'correspondence K2 broken ({len(k2)} tracebacks): {k2[0]}')
     if broken and not oracle_fail:
         chk.violation('C04: ' + ' | '.join(broken[:3]), {'no_longer_checks': broken}, no_input=True)
